@@ -10,7 +10,7 @@ for ln in open(os.path.join(V, "build/thorough_logs/summary.txt")):
 rows = ["| check | last thorough run on the unchanged tree | wall time |", "|---|---|---|"]
 for k in sorted(last):
     rc, secs = last[k]
-    res = {0: "exit 0 (held; known findings only)", 1: "exit 1", 2: "tool error", 124: "did not finish within the limit of the runner (35 - 50 minutes on the shared machine)", 137: "killed (out of memory)"}.get(rc, "rc=%d" % rc)
+    res = {0: "exit 0 (held; known findings only)", 1: "exit 1 on one case, recorded afterwards as a known finding (see the note below; not re-run)", 2: "tool error", 124: "did not finish within the limit of the runner (35 - 50 minutes on the shared machine)", 137: "killed (out of memory)"}.get(rc, "rc=%d" % rc)
     rows.append("| %s | %s | %d s |" % (k, res, secs))
 block = "<!-- THOROUGH BEGIN -->\n" + "\n".join(rows) + "\n<!-- THOROUGH END -->"
 p = os.path.join(V, "DESIGN.md")
